@@ -111,6 +111,21 @@ var c18Zoo = map[string][]string{
 		"SELECT $1::nosuchtype",
 		"SELECT $1::public.mood[]",
 		"SELECT sqlc.arg(x)",
+		// named parameters whose source text is not what the rewriter reconstructs, at the very end of the statement
+		"SELECT id FROM authors WHERE id = sqlc.arg(1)",
+		"SELECT id FROM authors ORDER BY id LIMIT sqlc.arg(2)",
+		"UPDATE authors SET name = 'x' WHERE id = sqlc.arg(7)",
+		"SELECT id FROM authors WHERE id = sqlc.arg(1) AND name = 'x'",
+		"SELECT id FROM authors WHERE name = sqlc.arg('')",
+		"SELECT id FROM authors WHERE name = sqlc.arg(x )",
+		"SELECT id FROM authors WHERE name = sqlc.arg( x)",
+		"SELECT id FROM authors WHERE name = sqlc.arg(\"x\")",
+		"SELECT id FROM authors WHERE name = @x",
+		"SELECT id FROM authors WHERE id = @x::bigint",
+		"SELECT id FROM authors WHERE name = sqlc.arg(authors.name)",
+		"SELECT id FROM authors WHERE name = sqlc.arg(1.5)",
+		"SELECT id FROM authors WHERE name = sqlc.arg(NULL)",
+		"SELECT id FROM authors WHERE name = sqlc.arg(true)",
 		"SELECT sqlc.arg()",
 		"SELECT sqlc.arg(a, b)",
 		"SELECT sqlc.arg(1 + 2)",
